@@ -1,6 +1,7 @@
 package notation
 
 import (
+	"encoding/json"
 	"fmt"
 	"regexp"
 	"runtime"
@@ -531,6 +532,20 @@ func execDeepNest(c deepNestCase, _ core.Source) (res core.Result) {
 func TestC12(t *testing.T) {
 	r := core.Begin(t, "C12")
 	defer r.End()
+	if rf := r.ReplayOf(); rf != nil && rf.Check == "native-fuzz" {
+		// a crasher saved by the native fuzzer: its input is the reproducible unit
+		var c struct {
+			Input string `json:"input"`
+		}
+		json.Unmarshal(rf.Case, &c)
+		res := execInput(c.Input)
+		sub := &core.SubResult{Name: "native-fuzz", Mode: "replay", Evaluations: 1}
+		if res.Violation != nil {
+			sub.Violation = &core.ReplayFile{Property: "C12", Check: "native-fuzz", Signature: res.Violation.Signature, Message: res.Violation.Message, Case: rf.Case}
+		}
+		r.Custom(sub)
+		return
+	}
 	core.DFS(r, core.Check[editCase]{Name: "all-single-edits", Gen: genEdit, Exec: func(c editCase, _ core.Source) core.Result { return execInput(c.Input) }, NoJournal: true}, 0)
 	core.Rapid(r, core.Check[mutCase]{Name: "mutants", Gen: genMutant, Exec: execMutant, HangLimit: 120 * time.Second}, r.N(4000, 40000))
 	core.Rapid(r, core.Check[soupCase]{Name: "token-soup", Gen: genSoup, Exec: func(c soupCase, _ core.Source) core.Result { return execInput(c.Input) }, HangLimit: 120 * time.Second}, r.N(3000, 30000))
